@@ -1015,4 +1015,23 @@ theorem labelSuffix_lower_iff (zone name : Str) :
       LabelSuffix (labelsOf zone) (labelsOf name) := by
   rw [labelsOf_lower, labelsOf_lower, labelSuffix_map_lower]
 
+theorem LabelSuffix.trans {a b c : Name} (h1 : LabelSuffix a b) (h2 : LabelSuffix b c) :
+    LabelSuffix a c := by
+  obtain ⟨p1, s1, rfl, e1⟩ := h1
+  obtain ⟨p2, s2, rfl, e2⟩ := h2
+  refine ⟨p2 ++ s2.take p1.length, s2.drop p1.length, by simp, ?_⟩
+  unfold LabelsEq at *
+  have := congrArg (List.drop p1.length) e2
+  rw [List.map_append, ← List.map_drop] at this
+  rw [List.drop_left' (by simp)] at this
+  rw [e1, this]
+
+/-- A suffix of at most `level` labels survives cutting the name down to its last `level` labels. -/
+theorem LabelSuffix.drop_of_le {z q : Name} (h : LabelSuffix z q) (level : Nat) (hl : z.length ≤ level) :
+    LabelSuffix z (q.drop (q.length - level)) := by
+  obtain ⟨p, sfx, rfl, e⟩ := h
+  have hlen := e.length_eq
+  refine ⟨p.drop ((p ++ sfx).length - level), sfx, ?_, e⟩
+  rw [List.drop_append_of_le_length (by simp; omega)]
+
 end SdnsVerif.Lemmas.Bailiwick
